@@ -1143,6 +1143,13 @@ static JanetSignal run_vm(JanetFiber *fiber, Janet in) {
             janet_panicf("cannot propagate from fiber with status :%s",
                          janet_status_names[sub_status]);
         }
+        /* The chain of children must end: the walkers (cancel, resume of a pending fiber) rely on it */
+        for (JanetFiber *c = f; c != NULL; c = c->child) {
+            if (c == fiber) {
+                vm_commit();
+                janet_panic("cannot propagate from a fiber that is suspended in this fiber");
+            }
+        }
         fiber->child = f;
         vm_return((int) sub_status, stack[B]);
     }
